@@ -39,7 +39,7 @@ theorem C08_whole_walk (id : Nat) (dir : Bool) (cmd : Bytes) (fixed : List Bytes
     (hall : m.AllP (Sole id dir cmd fixed)) (hone : m.weight wT ≤ 1) (hmem : M.multis m ≠ [])
     (hb : ∃ nb, newBatch g.budget cmd fixed = some nb)
     (hwalk : ((refCfg c).depthFirst = false ∧ PruneOkN (refCfg c) (evalEntry m start) [] 0 (if c.sorted then sortNode root else root)) ∨
-             ((refCfg c).depthFirst = true ∧ ¬ HRootLink (refCfg c) (if c.sorted then sortNode root else root))) :
+             (refCfg c).depthFirst = true) :
     let n := if c.sorted then sortNode root else root
     let r := processDir c m start (some root) g
     ∃ L, delivered (cmd :: fixed) r.gs = handed (cmd :: fixed) id g ++ L ∧
@@ -54,16 +54,14 @@ example :
     let root : Node Attr := .dir [116] false true { lty := 'd', sty := 'd' } [.leaf [97] .plain { lty := 'f', sty := 'f' }]
     m.AllP (Sole 0 false [99] []) ∧ m.weight wT ≤ 1 ∧ M.multis m ≠ [] ∧
       (∃ nb, newBatch ({} : GS).budget [99] [] = some nb) ∧
-      ((refCfg c).depthFirst = true ∧ ¬ HRootLink (refCfg c) (if c.sorted then sortNode root else root)) := by
+      (refCfg c).depthFirst = true := by
   intro m c root
   refine ⟨by simp [m, FuModel.Find.Expr.M.AllP, FuModel.Find.Expr.M.AllP.AllPs, Sole, quiet], by decide, by decide,
-    ?_, rfl, ?_⟩
-  · have h : (newBatch ({} : GS).budget [99] []).isSome = true := by decide
-    cases hn : newBatch ({} : GS).budget [99] [] with
-    | some nb => exact ⟨nb, rfl⟩
-    | none => rw [hn] at h; cases h
-  · rintro ⟨h, _⟩
-    cases h
+    ?_, rfl⟩
+  have h : (newBatch ({} : GS).budget [99] []).isSome = true := by decide
+  cases hn : newBatch ({} : GS).budget [99] [] with
+  | some nb => exact ⟨nb, rfl⟩
+  | none => rw [hn] at h; cases h
 
 /-- non-vacuity: two paths handed to a `+` action and the final flush -/
 example :
@@ -113,14 +111,13 @@ theorem C08_whole_walk_wf (id : Nat) (dir : Bool) (cmd : Bytes) (fixed : List By
     nothing is left waiting. -/
 theorem C08_exact (id : Nat) (dir : Bool) (cmd : Bytes) (fixed : List Bytes) (B : Nat) (nb : Batch)
     (hnb : newBatch B cmd fixed = some nb) (t : Prim) (ht : isTestP t = true)
-    (c : Config) (start : Bytes) (root : Node Attr) (g : GS) (hI : IX id B nb g)
-    (hH : (refCfg c).depthFirst = true → ¬ HRootLink (refCfg c) (if c.sorted then sortNode root else root)) :
+    (c : Config) (start : Bytes) (root : Node Attr) (g : GS) (hI : IX id B nb g) :
     let n := if c.sorted then sortNode root else root
     let r := processDir c (.and [.prim t, .prim (.execMulti id dir true cmd fixed)]) start (some root) g
     delivered (cmd :: fixed) r.gs =
       handed (cmd :: fixed) id g ++ (visitsN (refCfg c) [] 0 n).flatMap (handedBy dir nb t start) ∧
     pendingOf id r.gs = [] :=
-  whole_walk_exact id dir cmd fixed B nb hnb t ht c start root g hI hH
+  whole_walk_exact id dir cmd fixed B nb hnb t ht c start root g hI
 
 /-- non-vacuity: the initial state satisfies `IX`, and for `find t -type f -exec c {} +` on a
     two-level tree the right-hand side is the two files (kernel evaluation) -/
